@@ -475,6 +475,71 @@ def _check_chunked(tier):
     return res
 
 
+class _LazyLen:
+    """a collection that knows its length only after it has been iterated (a lazily fetched result set): falsy, len() == 0 beforehand"""
+
+    def __init__(self, xs):
+        self._xs, self._n = list(xs), 0
+
+    def __len__(self):
+        return self._n
+
+    def __iter__(self):
+        self._n = len(self._xs)
+        return iter(self._xs)
+
+
+class _FalsyIterable:
+    def __init__(self, xs):
+        self._xs = list(xs)
+
+    def __bool__(self):
+        return False
+
+    def __iter__(self):
+        return iter(self._xs)
+
+
+def _check_map_iterable_kinds():
+    """parallel_map over every kind of iterable (not only lists and generators): array-likes whose truth value is ambiguous or False
+    although they have elements, lazily sized collections, views; both implementations, sequential and threaded path"""
+    import collections
+    import numpy as np
+    import pandas as pd
+    import taskchain.utils.iter as it
+    import taskchain.utils.threading as th
+
+    res = Result()
+
+    def kinds(n):
+        src = list(range(n))
+        return {'list': src, 'tuple': tuple(src), 'range': range(n), 'deque': collections.deque(src), 'keys': {x: 1 for x in src}.keys(), 'set-of-one': set(src[:1]),
+                'array': np.array(src, dtype=int), 'array-zeros': np.zeros(n, dtype=int), 'array-float0': np.zeros(n), 'array-2d': np.arange(2 * n).reshape(n, 2) if n else np.zeros((0, 2)),
+                'series': pd.Series(src, dtype='int64'), 'index': pd.Index(src, dtype='int64'), 'lazy-len': _LazyLen(src), 'falsy-iterable': _FalsyIterable(src), 'iter': iter(src), 'map': map(int, src)}
+
+    def f(x):
+        return ('r', repr(np.asarray(x).tolist()))
+
+    for impl in ('threading', 'iter'):
+        for n in (0, 1, 3, 5):
+            for threads in (1, 3):
+                for cs in ((2, 1000) if impl == 'threading' else (None,)):
+                    for kind, data in kinds(n).items():
+                        want = [f(x) for x in kinds(n)[kind]]
+                        case = {'kind': 'map-iterables', 'impl': impl}
+                        label = f'parallel_map[{impl}](f, {kind} of {n} elements, threads={threads}' + (f', chunksize={cs})' if cs else ')')
+                        try:
+                            with _Deadline(60):
+                                got = th.parallel_map(f, data, threads=threads, use_tqdm=False, chunksize=cs) if impl == 'threading' else it.parallel_map(f, data, threads=threads)
+                        except Exception as e:  # noqa
+                            got = f'{type(e).__name__}: {e}'
+                        res.add('evaluations')
+                        res.add('transitions')
+                        if got != want:
+                            res.violations.append(Violation(f'parallel_map[{impl}] iterable kinds: result differs from the sequential map', f'{label} -> {str(got)[:200]}, expected {want}', case))
+    return res
+
+
 def run(tier, seed):
     cases = _cases(tier)
     k = seed % max(1, len(cases))
@@ -484,6 +549,7 @@ def run(tier, seed):
     ck.merge(_check_exception_types())
     ck.merge(_check_stop_iteration_threads())
     ck.merge(_check_chunk_isolation())
+    ck.merge(_check_map_iterable_kinds())
     res.merge(ck)
     res.merge(_check_stop_iteration())
     if ck.violations:
